@@ -82,6 +82,9 @@ def cases(draw):
             'seeds': seeds,
             # the scripts themselves listed as files to distribute
             'dist_bootstrap': draw(st.booleans()),
+            # source files whose names look like references to variables of
+            # the ambient environment
+            'dollar_names': draw(st.booleans()),
             'toolchain': draw(st.sampled_from([None, None, TOOLCHAINS[0],
                                                TOOLCHAINS[1]])),
             # requirement lists of the generated .pc file: one name may be
@@ -121,8 +124,14 @@ def render(case, src):
         prev = name
     sandbox.write_file(os.path.join(src, 'main.c'),
                        'int main(void){return 0;}\n')
-    L.append("prog = executable('prog', ['main.c'] + srcs, libs=[{}])".format(
-        ', '.join('l_' + n for n in case['libs'])))
+    dollar = []
+    if case.get('dollar_names'):
+        dollar = ['sym$A_VAR.c', 'x${ZZ_UNRELATED}y.c', '$TERM/t.c']
+        for n in dollar:
+            sandbox.write_file(os.path.join(src, n), '/* {} */\n'.format(n))
+    L.append("prog = executable('prog', ['main.c'] + {!r} + srcs, "
+             "libs=[{}])".format(
+                 dollar, ', '.join('l_' + n for n in case['libs'])))
     for n in case['libs'][:case['explicit_installs']]:
         L.append('install(l_{})'.format(n))
     L.append('install(prog)')
